@@ -37,6 +37,7 @@ import (
 type marker struct {
 	closes atomic.Int64
 	slow   time.Duration
+	slowT  time.Duration // Type() takes this long (validation of a definition spends time under the Broker's lock)
 	ver    int
 	mu     sync.Mutex
 	seen   map[int]int
@@ -51,7 +52,12 @@ func (m *marker) Process(ctx context.Context, e *eventlogger.Event) (*eventlogge
 	return e, nil
 }
 func (m *marker) Reopen() error              { return nil }
-func (m *marker) Type() eventlogger.NodeType { return eventlogger.NodeTypeFilter }
+func (m *marker) Type() eventlogger.NodeType {
+	if m.slowT > 0 {
+		time.Sleep(m.slowT)
+	}
+	return eventlogger.NodeTypeFilter
+}
 
 // Close takes a while (a sink flushing): removals spend time outside the Broker's lock.
 func (m *marker) Close(ctx context.Context) error {
@@ -151,6 +157,19 @@ func RunHistory(id int, seed int64) (*History, []Problem) {
 			problem("C04", "RegisterPipeline of registered, well-formed nodes failed: %v", err)
 		}
 	}
+	// a definition that is refused (filter -> sink, no formatter), possibly over a registered pipeline: no effect
+	doRegBad := func(r *rand.Rand) {
+		ver := int(atomic.AddInt64(&verc, 1))
+		m := &marker{ver: ver, seen: map[int]int{}, slowT: time.Duration(r.Intn(300)) * time.Microsecond}
+		markers.Store(ver, m)
+		ids := []eventlogger.NodeID{eventlogger.NodeID(fmt.Sprintf("mk%d", ver)), eventlogger.NodeID(fmt.Sprintf("sk%d", ver))}
+		b.RegisterNode(ids[0], m)
+		b.RegisterNode(ids[1], &leaf{eventlogger.NodeTypeSink})
+		pid := pids[r.Intn(len(pids))]
+		n := logInv(rec{"kind": "regbad", "pid": pid, "ver": ver})
+		err := b.RegisterPipeline(eventlogger.Pipeline{PipelineID: eventlogger.PipelineID(pid), EventType: "t", NodeIDs: ids})
+		logResp(n, rec{"err": map[bool]string{true: "t", false: "f"}[err != nil]})
+	}
 	doSend := func() {
 		sid := int(atomic.AddInt64(&sendID, 1))
 		n := logInv(rec{"kind": "send"})
@@ -195,8 +214,10 @@ func RunHistory(id int, seed int64) (*History, []Problem) {
 			r := rand.New(rand.NewSource(seed*131 + int64(g)))
 			for i := 0; i < perG+r.Intn(3); i++ {
 				switch x := r.Intn(20); {
-				case x < 5:
+				case x < 4:
 					doReg(r)
+				case x < 5:
+					doRegBad(r)
 				case x < 8:
 					pid := pids[r.Intn(len(pids))]
 					if sharedMode || r.Intn(2) == 0 {
@@ -831,6 +852,56 @@ func (n *slowType) whenAsked(f func()) {
 	close(n.release)
 }
 
+// gateFilter holds every event inside Process until it is released.
+type gateFilter struct {
+	entered chan struct{}
+	release chan struct{}
+}
+
+func newGateFilter() *gateFilter {
+	return &gateFilter{entered: make(chan struct{}, 8), release: make(chan struct{})}
+}
+func (g *gateFilter) Process(ctx context.Context, e *eventlogger.Event) (*eventlogger.Event, error) {
+	select {
+	case g.entered <- struct{}{}:
+	default:
+	}
+	<-g.release
+	return e, nil
+}
+func (g *gateFilter) Reopen() error              { return nil }
+func (g *gateFilter) Type() eventlogger.NodeType { return eventlogger.NodeTypeFilter }
+
+// askedType tells when it is asked for its type and answers only when released (or after 300 ms).
+type askedType struct {
+	t       eventlogger.NodeType
+	sink    *countSink
+	asked   chan struct{}
+	release chan struct{}
+}
+
+func newAskedType(t eventlogger.NodeType) *askedType {
+	return &askedType{t: t, asked: make(chan struct{}, 8), release: make(chan struct{})}
+}
+func (a *askedType) Process(ctx context.Context, e *eventlogger.Event) (*eventlogger.Event, error) {
+	if a.sink != nil {
+		return a.sink.Process(ctx, e)
+	}
+	return e, nil
+}
+func (a *askedType) Reopen() error { return nil }
+func (a *askedType) Type() eventlogger.NodeType {
+	select {
+	case a.asked <- struct{}{}:
+	default:
+	}
+	select {
+	case <-a.release:
+	case <-time.After(300 * time.Millisecond):
+	}
+	return a.t
+}
+
 // AtomicityStress: two registry calls that conflict are released from a barrier; each call of the registry takes
 // effect atomically (BrokerConc.tla / Registry.tla), so their results and the state they leave must be those of one
 // of the two sequential orders.
@@ -992,6 +1063,78 @@ func AtomicityStress(seed int64, rounds int) []Problem {
 			okB := !reg && y0 == "gone" && x0 == "idle"
 			if !okA && !okB {
 				problems = append(problems, Problem{"C06", fmt.Sprintf("RemovePipelineAndNodes(p over x*) raced an overwrite of p with y*: pipeline registered=%v, x0 %s, y0 %s - neither order of the two calls leaves this (remove first: registered, x gone, y in use; overwrite first: not registered, x idle, y gone)", reg, x0, y0)})
+			}
+		}
+		// (5) a Send that is already walking the pipelines of its type vs an overwrite of one of them that is refused
+		//     (filter -> sink without a formatter): a refused call takes no effect, so the Send delivers to the
+		//     registered pipelines exactly once each and never to the nodes of the refused definition
+		{
+			b, _ := eventlogger.NewBroker()
+			g1, g2 := newGateFilter(), newGateFilter()
+			s1, s2, bogus := &countSink{}, &countSink{}, &countSink{}
+			bf, bs := newAskedType(eventlogger.NodeTypeFilter), newAskedType(eventlogger.NodeTypeSink)
+			bs.sink = bogus
+			b.RegisterNode("g1", g1)
+			b.RegisterNode("g2", g2)
+			b.RegisterNode("fmt", &leaf{eventlogger.NodeTypeFormatter})
+			b.RegisterNode("s1", s1)
+			b.RegisterNode("s2", s2)
+			b.RegisterNode("bf", bf)
+			b.RegisterNode("bs", bs)
+			b.RegisterPipeline(eventlogger.Pipeline{PipelineID: "p1", EventType: "t", NodeIDs: []eventlogger.NodeID{"g1", "fmt", "s1"}})
+			b.RegisterPipeline(eventlogger.Pipeline{PipelineID: "p2", EventType: "t", NodeIDs: []eventlogger.NodeID{"g2", "fmt", "s2"}})
+			sendDone := make(chan error, 1)
+			go func() { _, err := b.Send(ctx, "t", i); sendDone <- err }()
+			other := eventlogger.PipelineID("")
+			select {
+			case <-g1.entered:
+				other = "p2"
+			case <-g2.entered:
+				other = "p1"
+			case <-time.After(5 * time.Second):
+			}
+			if other == "" {
+				problems = append(problems, Problem{"C04", "a Send over two registered pipelines entered neither of them within 5 s"})
+				close(g1.release)
+				close(g2.release)
+				continue
+			}
+			regDone := make(chan error, 1)
+			go func() {
+				regDone <- b.RegisterPipeline(eventlogger.Pipeline{PipelineID: other, EventType: "t", NodeIDs: []eventlogger.NodeID{"bf", "bs"}})
+			}()
+			// the refused definition's nodes are asked for their type (or the call is over already); then the Send goes on
+			select {
+			case <-bf.asked:
+			case <-bs.asked:
+			case e := <-regDone:
+				regDone <- e
+			case <-time.After(2 * time.Second):
+			}
+			close(g1.release)
+			close(g2.release)
+			var sendErr error
+			select {
+			case sendErr = <-sendDone:
+			case <-time.After(10 * time.Second):
+				problems = append(problems, Problem{"C12", "a Send that overlapped a refused RegisterPipeline did not return within 10 s"})
+			}
+			close(bf.release)
+			close(bs.release)
+			var regErr error
+			select {
+			case regErr = <-regDone:
+			case <-time.After(10 * time.Second):
+				problems = append(problems, Problem{"C12", "a refused RegisterPipeline did not return within 10 s"})
+				continue
+			}
+			if regErr == nil {
+				problems = append(problems, Problem{"C05", "RegisterPipeline of filter -> sink (no formatter) over a registered pipeline was accepted"})
+				continue
+			}
+			_ = sendErr
+			if n1, n2, nb := s1.n.Load(), s2.n.Load(), bogus.n.Load(); n1 != 1 || n2 != 1 || nb != 0 {
+				problems = append(problems, Problem{"C04", fmt.Sprintf("a Send overlapped an overwrite of %s that was refused (%v): it delivered %d times to p1, %d times to p2 and %d times to the sink of the refused definition; both pipelines were registered before the Send started and never removed, and the refused definition was never registered", other, regErr, n1, n2, nb)})
 			}
 		}
 	}
